@@ -38,7 +38,7 @@ func readJSON(path string, v interface{}) {
 type popFlags struct {
 	seed                                  int64
 	smallMax, smallSlice, smallSlices     int
-	nrand, ndp, nctx, nexpr, nplanted, nfeat int
+	nrand, ndp, nctx, nexpr, nplanted, nfeat, nlong, nbig, nring int
 	corpus                                string
 }
 
@@ -53,6 +53,9 @@ func (p *popFlags) register(fs *flag.FlagSet) {
 	fs.IntVar(&p.nexpr, "nexpr", 0, "operator grammars")
 	fs.IntVar(&p.nplanted, "nplanted", 0, "random grammars with planted unusable symbols")
 	fs.IntVar(&p.nfeat, "nfeat", 0, "surface-feature grammars (names, literals, rule lengths)")
+	fs.IntVar(&p.nlong, "nlong", 0, "grammars with long right-hand sides")
+	fs.IntVar(&p.nbig, "nbig", 0, "large grammars (100-300 states)")
+	fs.IntVar(&p.nring, "nring", 0, "mutually right-recursive rings (includes-SCCs)")
 	fs.StringVar(&p.corpus, "corpus", "", "corpus directory")
 }
 
@@ -81,6 +84,15 @@ func (p *popFlags) cases() []*Case {
 	for i := 0; i < p.nexpr; i++ {
 		res = append(res, GenExpr(r, fmt.Sprintf("expr-%d-%d", p.seed, i)))
 	}
+	for i := 0; i < p.nring; i++ {
+		res = append(res, GenRing(r, fmt.Sprintf("ring-%d-%d", p.seed, i)))
+	}
+	for i := 0; i < p.nbig; i++ {
+		res = append(res, GenBig(r, fmt.Sprintf("big-%d-%d", p.seed, i), []int{6, 3, 4, 7, 5}[i%5]))
+	}
+	for i := 0; i < p.nlong; i++ {
+		res = append(res, GenLong(r, fmt.Sprintf("long-%d-%d", p.seed, i)))
+	}
 	for i := 0; i < p.nfeat; i++ {
 		res = append(res, GenFeature(r, fmt.Sprintf("feat-%d-%d", p.seed, i)))
 	}
@@ -88,7 +100,19 @@ func (p *popFlags) cases() []*Case {
 		k := randKnobs(r)
 		k.PUndefined, k.PUnproductive, k.PRuleless, k.PUnreachableJunk = 0.3, 0.4, 0.2, 0.3
 		k.Repair = r.Intn(4) != 0
-		res = append(res, GenRandom(r, fmt.Sprintf("planted-%d-%d", p.seed, i), k))
+		pc := GenRandom(r, fmt.Sprintf("planted-%d-%d", p.seed, i), k)
+		// the name "start" is special inside yaccgo (default start symbol, name of the augmented symbol):
+		// sometimes the planted or the start nonterminal carries exactly that name
+		switch r.Intn(6) {
+		case 0:
+			renameSym(pc, "U", "start")
+		case 1:
+			renameSym(pc, pc.Start, "start")
+			pc.NoStart = r.Intn(2) == 0
+		case 2:
+			renameSym(pc, "Q", "start")
+		}
+		res = append(res, pc)
 	}
 	return res
 }
@@ -101,6 +125,7 @@ func cmdObserve(args []string) {
 	out := fs.String("out", ".", "output directory")
 	shards := fs.Int("shards", 1, "number of shard files")
 	one := fs.String("case", "", "observe a single case file (replay)")
+	nextra := fs.Int("extra", 0, "random sentences (+ as many mutations) per grammar handed to the driver-level check")
 	fs.Parse(args)
 	var cases []*Case
 	if *one != "" {
@@ -115,6 +140,24 @@ func cmdObserve(args []string) {
 	counts := map[string]int{}
 	for i, c := range cases {
 		o := Observe(c)
+		if *nextra > 0 && o.Outcome == "ok" {
+			rr := rand.New(rand.NewSource(p.seed*31 + int64(i)))
+			terms := c.Terminals()
+			for _, in := range GenInputs(c, rr, 1, 0, *nextra) {
+				names := []string{}
+				okIn := true
+				for _, k := range in {
+					if k < 1 || k > len(terms) {
+						okIn = false
+						break
+					}
+					names = append(names, terms[k-1])
+				}
+				if okIn && len(names) > 0 {
+					o.Extra = append(o.Extra, names)
+				}
+			}
+		}
 		counts[o.Outcome]++
 		obs[i%*shards] = append(obs[i%*shards], o)
 	}
